@@ -269,6 +269,141 @@ def brier_level(ctx, cases, tag):
     ctx.count(tag, len(cases))
 
 
+def chained_exact(xs, y, t, tail, meth):
+    """exact oracle: kernel form of the chained members / observation"""
+    g = (lambda v: max(v, t)) if tail == "upper" else (lambda v: min(v, t))
+    valid = [g(x) for x in xs if not isnan(x)]
+    return kernel_form(valid, NAN if isnan(y) else g(y), meth)
+
+
+def kwargs_level(ctx, cases, tag):
+    """tw_crps_for_ensemble called directly with a chaining function whose threshold parameter has a default that
+    chaining_func_kwargs overrides: the override must reach the members AND the observation.  Compared with the exact oracle,
+    with tail_tw_crps_for_ensemble, and (when available) with the model."""
+    p = P()
+    rng = ctx.rng
+    cases = pad(cases)
+    fc, ob = batch_arrays(cases)
+    n = len(cases)
+    for meth in ("ecdf", "fair"):
+        for tail in ("upper", "lower"):
+            for kind in ("scalar", "array"):
+                default = Fraction(-9) if tail == "upper" else Fraction(9)        # the default clips nothing
+                if rng.random() < 0.3:
+                    default = rng.choice(GRID)
+                ts = []
+                for xs, y in cases:
+                    # obs on the clipped side of the override in most cases, ties obs == t included
+                    if not isnan(y) and rng.random() < 0.7:
+                        cand = [g for g in GRID + [Fraction(13, 2), Fraction(-13, 2)] if (g >= y if tail == "upper" else g <= y)]
+                        ts.append(rng.choice(cand))
+                    else:
+                        ts.append(rng.choice(GRID))
+                if kind == "scalar":
+                    ts = [ts[0]] * n
+                    targ = float(ts[0])
+                else:
+                    targ = xr.DataArray([float(v) for v in ts], dims=["case"])
+                got = core.call_impl(p.tw_crps_for_ensemble, fc, ob, "m", chain_fn(tail, float(default)), chaining_func_kwargs={"t": targ},
+                                     method=meth, preserve_dims="all")
+                ref = core.call_impl(p.tail_tw_crps_for_ensemble, fc, ob, "m", targ, tail=tail, method=meth, preserve_dims="all")
+                base = {"fn": "tw_crps_for_ensemble", "chaining_func": f"def v(x, t={default}): return np.{'maximum' if tail == 'upper' else 'minimum'}(x, t)",
+                        "tail": tail, "method": meth, "thresholds": kind}
+                if got[0] != "ok" or ref[0] != "ok":
+                    ctx.violation("tw_crps_for_ensemble with chaining_func_kwargs fails", dict(base, chaining_func_kwargs={"t": gens.da_repr(targ)}), "a value",
+                                  [got[1] if got[0] == "err" else "ok", ref[1] if ref[0] == "err" else "ok"])
+                    continue
+                gv, rv = got[1].values, ref[1].values
+                for i, (xs, y) in enumerate(cases):
+                    desc = dict(base, members=xs, obs=y, chaining_func_kwargs={"t": ts[i]})
+                    exact = chained_exact(xs, y, ts[i], tail, meth)
+                    ctx.case((tag, meth, tail, kind, tuple(map(str, xs)), str(y), str(ts[i]), str(default)), nontrivial=not isnan(exact))
+                    if not core.close(gv[i], exact):
+                        ctx.violation("tw_crps_for_ensemble(chaining_func_kwargs) differs from the kernel form of the chained members and observation "
+                                      "(the keyword override must reach both)", desc, exact, float(gv[i]))
+                    elif not same(gv[i], rv[i]):
+                        ctx.violation("tw_crps_for_ensemble(chaining_func_kwargs) differs from tail_tw_crps_for_ensemble at the same threshold", desc,
+                                      float(rv[i]), float(gv[i]))
+                    if has_model(ctx) and rng.random() < 0.25:
+                        m4 = core.dec_nums(ctx.model("c06_tw_case", enc_list([enc_nums(xs), enc_num(y), enc_num(ts[i]), enc_num(ts[i]), enc_str(meth)])))
+                        mv = m4[2] if tail == "upper" else m4[0]
+                        if not core.close(gv[i], mv):
+                            ctx.tie_fail("tw_crps_for_ensemble(chaining_func_kwargs) vs model", desc, float(gv[i]), str(mv))
+    ctx.count(tag, len(cases))
+
+
+def brier_exact(xs, y, t, fair):
+    """exact ensemble Brier score of the event `>= t` (fair correction i(m-i)/(m^2(m-1)), defined as 0 for one member)"""
+    valid = [x for x in xs if not isnan(x)]
+    if not valid or isnan(y):
+        return NAN
+    m = len(valid)
+    i = sum(1 for x in valid if x >= t)
+    r = (Fraction(i, m) - (1 if y >= t else 0)) ** 2
+    if fair and m > 1:
+        r -= Fraction(i * (m - i), m * m * (m - 1))
+    return r
+
+
+def brier_weights_level(ctx, cases, tag):
+    """weights multiply the whole per-case Brier score (squared error minus fair correction): with non-unit weights and
+    fair_correction=True the weighted per-case result is w x the unweighted one (= w x exact oracle), its mean over cases is the
+    mean of those, and the weighted threshold integral is the weighted fair CRPS"""
+    p = P()
+    rng = ctx.rng
+    cases = pad(cases)
+    fc, ob = batch_arrays(cases)
+    pts = sorted({v for xs, y in cases for v in xs + [y] if not isnan(v)})
+    if len(pts) < 2:
+        return
+    mids = [(a + b) / 2 for a, b in zip(pts, pts[1:])]
+    wid = np.array([float(b - a) for a, b in zip(pts, pts[1:])])
+    ws = [rng.choice([Fraction(1, 2), Fraction(3, 2), Fraction(2), Fraction(3), Fraction(1, 4)]) for _ in cases]
+    w = xr.DataArray([float(v) for v in ws], dims=["case"])
+    tf = [float(t) for t in mids]
+    for fair in (True, False):
+        r1 = core.call_impl(p.brier_score_for_ensemble, fc, ob, "m", tf, fair_correction=fair, preserve_dims="all")
+        rw = core.call_impl(p.brier_score_for_ensemble, fc, ob, "m", tf, fair_correction=fair, preserve_dims="all", weights=w)
+        rm = core.call_impl(p.brier_score_for_ensemble, fc, ob, "m", tf, fair_correction=fair, reduce_dims=["case"], weights=w)
+        cw = core.call_impl(p.crps_for_ensemble, fc, ob, "m", method="fair" if fair else "ecdf", preserve_dims="all", weights=w)
+        base = {"fn": "brier_score_for_ensemble", "fair_correction": fair}
+        if any(x[0] != "ok" for x in (r1, rw, rm, cw)):
+            ctx.violation("brier_score_for_ensemble / crps_for_ensemble with weights fails", base, "values", [x[1] if x[0] == "err" else "ok" for x in (r1, rw, rm, cw)])
+            continue
+        a1 = r1[1].transpose("case", "threshold").values
+        aw = rw[1].transpose("case", "threshold").values
+        am = rm[1].values
+        cv = cw[1].values
+        for i, (xs, y) in enumerate(cases):
+            nvalid = sum(1 for x in xs if not isnan(x))
+            for j, t in enumerate(mids):
+                ex = brier_exact(xs, y, t, fair)
+                want = NAN if isnan(ex) else ws[i] * ex
+                if not core.close(aw[i, j], want) or not same(aw[i, j], float(ws[i]) * a1[i, j]):
+                    ctx.violation("weighted ensemble Brier score is not weight x (squared error - fair correction)",
+                                  dict(base, members=xs, obs=y, threshold=t, weight=ws[i]), want, float(aw[i, j]))
+                    break
+            ctx.case((tag, fair, tuple(map(str, xs)), str(y), str(ws[i])), nontrivial=nvalid > 0 and not isnan(y))
+            if not (fair and nvalid == 1):
+                integ = float((aw[i] * wid).sum())
+                if not same(integ, cv[i]):
+                    ctx.violation("weighted threshold integral of the ensemble Brier score != weighted CRPS",
+                                  dict(base, members=xs, obs=y, weight=ws[i], breakpoints=pts), float(cv[i]), integ)
+        # mean over cases of the weighted score (NaN cases skipped)
+        col = np.array([[fl(ws[i] * brier_exact(xs, y, t, fair)) if not isnan(brier_exact(xs, y, t, fair)) else NAN for t in mids] for i, (xs, y) in enumerate(cases)])
+        with np.errstate(all="ignore"):
+            import warnings
+            with warnings.catch_warnings():
+                warnings.simplefilter("ignore")
+                wantm = np.nanmean(col, axis=0)
+        if not same(am, wantm).all():
+            j = int(np.argwhere(~same(am, wantm))[0][0])
+            ctx.violation("weighted mean over cases of the ensemble Brier score differs from the mean of weight x score",
+                          dict(base, cases=[{"members": xs, "obs": y, "weight": ws[i]} for i, (xs, y) in enumerate(cases)], threshold=mids[j]),
+                          float(wantm[j]), float(am[j]))
+    ctx.count(tag, len(cases))
+
+
 def invariance_level(ctx, cases, tag):
     p = P()
     cases = pad(cases)
@@ -352,6 +487,11 @@ def gen_full(ctx):
     if kind in ("tail", "chain"):
         mode["tail"] = "sideways" if (bad and kind == "tail" and rng.random() < 0.15) else rng.choice(["upper", "lower"])
         mode["t"] = rand_threshold(rng, sizes, data)
+        if kind == "chain":
+            # the chaining function has a DEFAULT threshold that chaining_func_kwargs overrides: members and observation must both
+            # receive the override (the tail_/interval_ wrappers cannot show this: they bind the thresholds as defaults too)
+            mode["kwargs"] = rng.random() < 0.7
+            mode["default"] = rng.choice([Fraction(-9), Fraction(9), Fraction(0)])
     elif kind == "interval":
         lo = rand_threshold(rng, sizes, data, top=False)
         if isinstance(lo, xr.DataArray):
@@ -380,6 +520,17 @@ def enc_mode(mode):
     return enc_list([enc_str("interval_s" if sc else "interval"), enc_arr(thr(mode["lo"])), enc_arr(thr(mode["hi"]))])
 
 
+def chain_fn(tail, default):
+    """chaining function with a default threshold, to be overridden through chaining_func_kwargs={"t": ...}"""
+    if tail == "upper":
+        def v(x, t=default):
+            return np.maximum(x, t)
+    else:
+        def v(x, t=default):
+            return np.minimum(x, t)
+    return v
+
+
 def thr(t):
     return t if isinstance(t, xr.DataArray) else float(t)
 
@@ -401,6 +552,9 @@ def call_full(c):
         return core.call_impl(p.tail_tw_crps_for_ensemble, c["fcst"], c["obs"], c["ens"], thr(mode["t"]), tail=mode["tail"], **kw)
     if k == "chain":
         t = thr(mode["t"])
+        if mode.get("kwargs"):
+            return core.call_impl(p.tw_crps_for_ensemble, c["fcst"], c["obs"], c["ens"], chain_fn(mode["tail"], float(mode["default"])),
+                                  chaining_func_kwargs={"t": t}, **kw)
         f = (lambda x: np.maximum(x, t)) if mode["tail"] == "upper" else (lambda x: np.minimum(x, t))
         return core.call_impl(p.tw_crps_for_ensemble, c["fcst"], c["obs"], c["ens"], f, **kw)
     return core.call_impl(p.interval_tw_crps_for_ensemble, c["fcst"], c["obs"], c["ens"], thr(mode["lo"]), thr(mode["hi"]), **kw)
@@ -482,6 +636,8 @@ def check_full(ctx, c, first=False):
     ctx.count("full:spelling=" + ("none" if c["rd"] is None and c["pd"] is None else type(c["rd"] if c["rd"] is not None else c["pd"]).__name__))
     if first:
         ctx.sample(desc)
+    if c["mode"].get("kwargs"):
+        ctx.count("full:chain-kwargs")
     if not ok:
         ctx.tie_fail("public function vs model: " + why, desc, str(impl[1])[:300], str(tree)[:300])
 
@@ -669,6 +825,10 @@ def replay(ctx, obj):
                 tw_level(ctx, [(xs, y)], "replay", fixed=(unj(case["lower_threshold"]), unj(case["upper_threshold"]), case.get("thresholds", "scalar")))
             elif fn == "brier_score_for_ensemble integral":
                 brier_level(ctx, [(xs, y)], "replay")
+            elif fn == "brier_score_for_ensemble":
+                brier_weights_level(ctx, [(xs, y)], "replay")
+            elif fn == "tw_crps_for_ensemble":
+                kwargs_level(ctx, [(xs, y)], "replay")
             else:
                 case_level(ctx, [(xs, y)], "replay")
                 invariance_level(ctx, [(xs, y)], "replay")
@@ -676,7 +836,7 @@ def replay(ctx, obj):
             guard_level(ctx)
         elif "fcst" in case and "mode" in case:
             mode = dict(case["mode"])
-            for k in ("t", "lo", "hi"):
+            for k in ("t", "lo", "hi", "default"):
                 if k in mode:
                     mode[k] = gens.da_from_repr(mode[k]) if isinstance(mode[k], dict) else unj(mode[k])
             w = case.get("weights")
@@ -722,6 +882,9 @@ def run(ctx):
         invariance_level(ctx, chunk, "invariance")
         for j in range(0, len(chunk), 30):
             brier_level(ctx, chunk[j:j + 30], "brier-integral")
+        for j in range(0, len(chunk), 60):
+            brier_weights_level(ctx, chunk[j:j + 12], "brier-weights")
+        kwargs_level(ctx, chunk[:100], "chain-kwargs")
     tw_level(ctx, [c for c in ex if len(c[0]) >= 2][:: (7 if ctx.tier == "quick" else 1)], "tw-sweep")
     if has_model(ctx):
         full_level(ctx, ctx.n(350, 12000))
